@@ -56,11 +56,14 @@ def arrays(ctx):
     rep = ctx.rep
     rep.rule('R-ARRAY', 'array x (C ordered and a transposed view): the result has the shape of x and element c is computed '
              'from difference quotients and steps of element c only (abstract data-dependence run of Derivative.__call__, '
-             'shared with C08)', 6)
+             'shared with C08); an array power of Bicomplex treats each element as the scalar call does (shared with C12)', 6)
     core = ctx.repo.module('core')
     for shape in ((3,), 'T(3, 2)'):
         for method, n, order in (('central', 1, 2), ('complex', 1, 2), ('forward', 2, 2)):
             c08.one(ctx, core, shape, method, n, order, False, rule_as='R-ARRAY')
+    # multicomplex on arrays goes through Bicomplex.__pow__ with a per-element fallback for x = 0: shared with C12
+    from . import c12
+    c12.elementwise(ctx, ctx.repo.module('multicomplex'), rule='R-ARRAY')
 
 
 def zero_order(ctx, P):
